@@ -10,6 +10,8 @@ MODEL_TARGETS = ["Corr/ReadShow.vo"]
 THEOREMS = ["C07_reshape_rows", "C07_transpose_nth", "C07_bind_length", "C07_bind_declared_frame", "C07_bind_declared", "C07_bind_new_unnamed", "C07_data_columns", "C07_rectangular", "C07_normal_engine_binds", "C07_bind_current", "C07_n_columns_current",
             "C07_numpy_engine_rect", "C07_normal_engine_rect", "C07_engine_rect", "C07_read_rectangular", "C07_read_one_data_shape"]
 ASSUMPTIONS = [
+    "DLM COMMA: an empty field ('100,,102') is a cell of its own column (an empty text cell; the other cells of that column come back as "
+    "the text of their number); DLM TAB has no empty fields (a run of tabs is one delimiter) and is not generated with them",
     "WRAP=YES is claimed for c = d (a depth step is d values spread over lines) and for whole-step lines with c >= d; "
     "a wrapped file with fewer values per step than declared curves is indistinguishable from a differently shaped file",
     "numpy.reshape / genfromtxt as modelled (Model/DataRead.v)",
@@ -27,7 +29,9 @@ def gen_case(rng):
     else:
         c = max(1, d + rng.choice([-2, -1, 0, 0, 0, 1, 2]))
     r = rng.choice([1, 1, 2, 3, 22])
-    s.curves = [("C%d" % j if j else "DEPT", rng.choice(["M", "", "OHMM"]), "", "curve %d" % j) for j in range(d)]
+    mixed = rng.random() < 0.4           # mixed-case mnemonics: mnemonic_case must map the name and nothing else
+    s.curves = [(("Cv%d" if mixed else "C%d") % j if j else ("Dept" if mixed else "DEPT"), rng.choice(["M", "", "OHMM"]), "", "curve %d" % j)
+                for j in range(d)]
     if d and rng.random() < 0.2:
         # duplicated / blank declared mnemonics
         k = rng.randrange(d)
@@ -42,6 +46,37 @@ def gen_case(rng):
             c = rng.choice([k for k in range(1, d)])
             r = rng.choice([m for m in (d, 2 * d, 3 * d, 1, 2, 3) if (m * c) % d == 0] or [d])
             s.rows = [[str(100 * (i + 1) + j) + rng.choice(["", ".0", ".5"]) for j in range(c)] for i in range(r)]
+    # spellings that keep the coordinates: negative, signed, exponent
+    if rng.random() < 0.5:
+        def respell(t):
+            v = float(t)
+            k = rng.choice(["same", "same", "neg", "plus", "exp", "negexp", "Exp"])
+            if k == "same":
+                return t
+            if k == "neg":
+                return "-" + t
+            if k == "plus":
+                return "+" + t
+            e = "%.5e" % v
+            return {"exp": e, "negexp": "-" + e, "Exp": e.upper()}[k]
+        s.rows = [[respell(t) for t in row] for row in s.rows]
+    s._case = rng.choice(["preserve", "preserve", "upper", "lower"])
+    # a text column (not the index) whose cells carry their coordinates
+    if c >= 2 and rng.random() < 0.12:
+        j = rng.randrange(1, c)
+        for i, row in enumerate(s.rows):
+            row[j] = "T%d" % (100 * (i + 1) + j)
+    # DLM COMMA with empty fields: dropping an empty field would shift the later columns
+    if not wrapped and s.wrap == "NO" and rng.random() < 0.2:
+        s.dlm = "COMMA"
+        s.data_pad = ("", "")
+        if c >= 2 and rng.random() < 0.7:
+            for row in s.rows:
+                for j in range(1, c):
+                    if rng.random() < 0.25:
+                        row[j] = ""
+            if all(t != "" for row in s.rows for t in row):
+                s.rows[0][rng.randrange(1, c)] = ""
     s.eol = "\n"
     extra = {}
     if wrapped:
@@ -74,10 +109,18 @@ def render(s):
     return text + "\n".join(lines) + "\n"
 
 
-def oracle(s, d, c, r, text, engine):
+def is_number(t):
+    try:
+        float(t)
+        return True
+    except ValueError:
+        return False
+
+
+def oracle(s, d, c, r, text, engine, case="preserve"):
     import lasio
     try:
-        las = lasio.read(text, engine=engine, mnemonic_case="preserve")
+        las = lasio.read(text, engine=engine, mnemonic_case=case)
     except Exception as e:
         return "read raised %s: %s" % (type(e).__name__, str(e)[-100:])
     n = max(d, c)
@@ -90,6 +133,7 @@ def oracle(s, d, c, r, text, engine):
     for j, cv in enumerate(las.curves):
         if j < d:
             m, u, v, de = s.curves[j]
+            m = {"preserve": m, "upper": m.upper(), "lower": m.lower()}[case]
             if (cv.original_mnemonic, cv.unit, cv.descr) != (m, u, de):
                 return "declared curve %d metadata %r, expected %r" % (j, (cv.original_mnemonic, cv.unit, cv.descr), (m, u, de))
         else:
@@ -98,9 +142,19 @@ def oracle(s, d, c, r, text, engine):
         for i in range(r):
             g = cv.data[i]
             if j < c:
-                e = float(s.rows[i][j])
-                if not (isinstance(g, float) and g == e):
-                    return "cell (%d,%d) = %r, expected %r" % (i, j, g, e)
+                tok = s.rows[i][j]
+                text_col = any(not is_number(row[j]) for row in s.rows)
+                if not is_number(tok):
+                    # a text cell or an empty comma field stays in its own column
+                    if not (isinstance(g, str) and g == tok):
+                        return "cell (%d,%d) = %r, expected the text %r" % (i, j, g, tok)
+                elif text_col:
+                    if not (isinstance(g, str) and is_number(g) and float(g) == float(tok)):
+                        return "cell (%d,%d) = %r, expected the text of %r (column with text / empty cells)" % (i, j, g, float(tok))
+                else:
+                    e = float(tok)
+                    if not (isinstance(g, float) and g == e):
+                        return "cell (%d,%d) = %r, expected %r" % (i, j, g, e)
             else:
                 if not (isinstance(g, float) and math.isnan(g)):
                     return "curve %d has no column but sample %d = %r" % (j, i, g)
@@ -117,13 +171,19 @@ def run(ctx):
         s, d, c, r = gen_case(rng)
         text = render(s)
         for e in ("numpy", "normal"):
-            bad = oracle(s, d, c, r, text, e)
+            bad = oracle(s, d, c, r, text, e, s._case)
             if bad:
-                res.oracle_violations.append({"payload": {"text": text, "engine": e, "d": d, "c": c, "r": r,
+                res.oracle_violations.append({"payload": {"text": text, "engine": e, "d": d, "c": c, "r": r, "case": s._case,
                                                           "curves": s.curves, "rows": s.rows}, "what": bad})
-            exp, las = rm.impl_read(text, engine=e, mnemonic_case="preserve")
-            cases.append(rm.coq_case(text, exp, engine=e, mnemonic_case="preserve"))
+            exp, las = rm.impl_read(text, engine=e, mnemonic_case=s._case)
+            cases.append(rm.coq_case(text, exp, engine=e, mnemonic_case=s._case))
             meta.append((text, e))
+        flat = [t for row in s.rows for t in row]
+        hist["dlm_comma"] = hist.get("dlm_comma", 0) + (s.dlm == "COMMA")
+        hist["empty_comma_field"] = hist.get("empty_comma_field", 0) + (s.dlm == "COMMA" and "" in flat)
+        hist["text_column"] = hist.get("text_column", 0) + any(t.startswith("T") for t in flat)
+        hist["negative_or_exponent"] = hist.get("negative_or_exponent", 0) + any(t[:1] in "-+" or "e" in t.lower() for t in flat if t[:1] != "T")
+        hist["mnemonic_case_" + s._case] = hist.get("mnemonic_case_" + s._case, 0) + 1
         shapes.add((d, c, min(r, 3), s.wrap, s._wrap_k))
         hist["no_wrap_item"] = hist.get("no_wrap_item", 0) + (s.wrap is None)
         hist["wrapped"] += s.wrap == "YES"
@@ -143,8 +203,10 @@ def run(ctx):
     res.cases = len(cases)
     res.distinct_nontrivial = len(shapes)
     res.rule = ("files with d declared curves (0..7, blank/duplicate mnemonics included), c data columns (c <, =, > d), r rows "
-                "(1,2,3,22), cells 100(i+1)+j carrying their coordinates, unwrapped and WRAP=YES (steps re-wrapped at 1..c tokens per "
-                "line), both engines; non-trivial = distinct (d, c, min(r,3), wrap, tokens per line)")
+                "(1,2,3,22), cells 100(i+1)+j carrying their coordinates (plain, negative, signed, exponent spellings; a text column; "
+                "DLM COMMA with empty fields), unwrapped and WRAP=YES (steps re-wrapped at 1..c tokens per line), both engines, "
+                "mnemonic_case preserve/upper/lower with mixed-case mnemonics; non-trivial = distinct (d, c, min(r,3), wrap, tokens per "
+                "line)")
     res.samples = [meta[0][0][-250:], meta[-1][0][-250:]]
     res.histogram = hist
     return res
@@ -154,7 +216,7 @@ def replay(payload):
     s = lasgen.Spec()
     s.curves = [tuple(x) for x in payload["curves"]]
     s.rows = payload["rows"]
-    bad = oracle(s, payload["d"], payload["c"], payload["r"], payload["text"], payload["engine"])
+    bad = oracle(s, payload["d"], payload["c"], payload["r"], payload["text"], payload["engine"], payload.get("case", "preserve"))
     return bad is not None, bad or "ok"
 
 
@@ -165,7 +227,8 @@ def search(ctx, res):
         s, d, c, r = gen_case(rng)
         text = render(s)
         for e in ("numpy", "normal"):
-            bad = oracle(s, d, c, r, text, e)
+            bad = oracle(s, d, c, r, text, e, s._case)
             if bad:
-                yield {"payload": {"text": text, "engine": e, "d": d, "c": c, "r": r, "curves": s.curves, "rows": s.rows}, "what": bad}
+                yield {"payload": {"text": text, "engine": e, "d": d, "c": c, "r": r, "case": s._case, "curves": s.curves, "rows": s.rows},
+                       "what": bad}
                 return
